@@ -25,7 +25,17 @@ def validate_runs(ctx, runs, source, expect_clean=True, tamper=True):
 
 
 def random_runs(ctx, n, **kw):
-    return [Wd.random_run(ctx.rng, **kw) for _ in range(n)]
+    from ..drivers import common as _c
+    out = []
+    for _ in range(n):
+        try:
+            with _c.budget():
+                out.append(Wd.random_run(ctx.rng, **kw))
+        except _c.Runaway as e:
+            out.append(([["runaway"]], [{"op": "runaway", "out": "Runaway", "why": str(e)}]))
+            if sum(1 for r in out if r[0] == [["runaway"]]) >= 3:
+                break
+    return out
 
 
 def spec_to_code(ctx, cfg, sample=None, max_len=14, probe=None):
